@@ -29,18 +29,7 @@ import atexit  # noqa: E402
 atexit.register(_cleanup)
 
 
-def canon(root):
-    """what must not depend on any storage option: shape, order, rebuilt data, kinds,
-    stable data_ids, clone partition"""
-    nodes = B.all_nodes(root)
-    first = {}
-    out = []
-    for i, n in enumerate(nodes):
-        g = first.setdefault(n._data_id, i)
-        par = -1 if n._parent is root else next(j for j, m in enumerate(nodes) if m is n._parent)
-        out.append((par, S.value_repr(n._data), getattr(n, "_kind", None),
-                    repr(n._data_id) if S.id_stable(n) else None, g))
-    return out
+canon = S.canon
 
 
 class Prop:
@@ -53,10 +42,14 @@ class Prop:
     rule = ("plain and typed trees: every ordered forest with <= N nodes (N=4 quick, 5 thorough) x label patterns with repeats (clones at "
             "every relative position incl. below a sibling of the first occurrence and nested below it; clones of differing kind) x explicit "
             "ids x str/unicode/value-hashed/identity-hashed/int/tuple/dataclass/DictWrapper data, plus seeded random trees up to 12 nodes.  "
-            "One case = one tree x one (key_map, value_map) in {default, off, custom}^2 (quick tier: two pairs per tree; thorough tier: three pairs per tree, all nine for every fifth tree) x mapper "
+            "One case = one tree x one (key_map, value_map) in {default, off, custom}^2 (quick tier: one or two pairs per tree; thorough tier: three pairs per tree, all nine for every fifth tree) x mapper "
             "style {none, callback, derived class}; inside every case REAL files are written and read through all transports: StringIO, "
             "open text file, str path and Path with compression in {False, True, STORED, DEFLATED, BZIP2, LZMA}; the written text must be "
             "the same for all transports (it is the model's save_doc), every loaded tree must be iso to the source (independent Python "
+            "iso); further per case: deserialize mappers that CONSUME their dict (callback and derived class) give the same tree; one meta dict "
+            "reused by two saves with different options stays untouched and the second file has no stale maps; a HISTORY on one tree object "
+            "(save, replace a node by one of a new kind keeping the node count, save again, load); class-level DEFAULT_KEY_MAP/DEFAULT_VALUE_MAP "
+            "unchanged after every case.  Falsy data values in every position.  (independent Python "
             "iso), equal to the tree loaded with maps off, and file_meta must be the stored header.  non-trivial = clone reference, "
             "kind-differing clone, or a dict entry")
     exhaustive_note = "all forest shapes <= N nodes (N=4 quick) with sampled labelings; all 12 transports in every case"
@@ -106,7 +99,7 @@ class Prop:
             meta = rng.choice([None, {"foo": "bar"}, {"str": "s", "t": [1], "kind": {"data_id": 0}}, {"n": 1, "l": [1, "x", None, True], "d": {"a": {}}, "\u00fc": "\u20ac"}])
             i += 1
             if tier == "quick":
-                sel = [combos[i % 9], combos[(i + 4) % 9]]
+                sel = [combos[i % 9]] + ([combos[(i + 4) % 9]] if i % 2 == 0 else [])
             elif i % 5 == 0:
                 sel = combos                                   # all nine (key_map, value_map) pairs
             else:
@@ -255,6 +248,9 @@ class Prop:
                         fail = fail or "options: loaded tree differs from the one loaded with key_map=False, value_map=False"
                 except Exception as e:  # noqa: BLE001
                     fail = fail or f"options: round trip with maps off fails: {e!r:.200}"
+            if not finding and not fail:
+                fail = self.more_checks(desc, tree, cls, lkw, text0, t0)
+        fail = fail or S.class_defaults_changed()
         strings = set()
         if doc is not None:
             S.all_strings(doc, strings)
@@ -278,6 +274,49 @@ class Prop:
                     key=H.digest([desc.get("nodes"), desc.get("km"), desc.get("vm"), typed, ms]),
                     stats=dict(nodes=len(nodes), refs=min(refs, 4), kind_differing_clones=min(kd, 3), km=desc.get("km"), vm=desc.get("vm"),
                                typed=typed, mapper=ms, transports=len(tr), loaded=not isinstance(t0, Exception) and doc is not None))
+
+
+def _more_checks(self, desc, tree, cls, lkw, text0, t0):
+    """further members of the property family that need a history or another mapper style"""
+    ms = desc.get("mapper", "cb")
+    # (a) a deserialize mapper may consume the dict it is handed (callback and derived-class style)
+    for style, tc in S.consuming_loads(cls, lkw, text0):
+        if isinstance(tc, Exception):
+            return f"mapper: load with a dict-consuming deserialize mapper ({style}) fails: {tc!r:.200}"
+        if canon(tc._root) != canon(t0._root):
+            return (f"mapper: with a deserialize mapper ({style}) that pops 'data_id'/'kind' from its dict the loaded tree differs: "
+                    f"{canon(tc._root)} instead of {canon(t0._root)}")
+    # (b) one meta dict reused by two saves with different options
+    r = S.meta_reuse_check(desc, tree, cls, lkw)
+    if isinstance(r, str):
+        return r
+    if canon(r._root) != canon(t0._root):
+        return "meta: the tree loaded from the second save (same meta dict, maps off) differs"
+    # (c) history on ONE tree object: save, replace a node by one of a NEW kind (same node count), save again, load
+    if ms != "fs":
+        tree2, _U2 = S.build_tree(desc)
+        nodes2 = B.all_nodes(tree2._root)
+        if nodes2:
+            skw, _l, _c = S.resolve_opts(desc)
+            try:
+                tree2.save(io.StringIO(), **skw)
+                nodes2[-1].remove()
+                if desc.get("typed"):
+                    tree2.add("fresh-zz", kind="zz")
+                else:
+                    tree2.add("fresh-zz")
+                fp = io.StringIO()
+                tree2.save(fp, **skw)
+                tl = cls.load(io.StringIO(fp.getvalue()), **lkw)
+            except Exception as e:  # noqa: BLE001
+                return f"history: save, replace a node by one of a new kind, save again, load: {e!r:.200}"
+            f2 = S.tree_iso(tree2._root, tl._root, d40_expected=S.in_d40_region(tree2._root), check_data=S.ids_consistent(tree2._root))
+            if f2 and not f2.startswith("D40"):
+                return "history: after save, replacing a node, save again: " + f2
+    return None
+
+
+Prop.more_checks = _more_checks
 
 
 def _d(typed, univ, nodes, km="true", vm="true", mapper="cb", meta=None, calc=None):
